@@ -1,0 +1,27 @@
+#pragma once
+
+// Verification hooks. Everything in this header is inert unless the library and its
+// client are both compiled with -DMORFUSE_VERIF.
+#ifdef MORFUSE_VERIF
+
+#include <chrono>
+#include <cstdint>
+
+namespace mfuse
+{
+namespace verif
+{
+    // When set, TimeManager reads this clock (milliseconds) instead of std::chrono::steady_clock.
+    extern int64_t (*clockHook)();
+
+    inline void OverrideNow(std::chrono::time_point<std::chrono::steady_clock>& tp)
+    {
+        if (clockHook)
+        {
+            tp = std::chrono::time_point<std::chrono::steady_clock>(std::chrono::milliseconds(clockHook()));
+        }
+    }
+}
+}
+
+#endif
